@@ -1,6 +1,7 @@
 import VOPyVerif.Drv.Proto
 import VOPyVerif.Model.Rect
 import VOPyVerif.Model.Ellipsoid
+import VOPyVerif.Model.RegionUpdate
 /-! Driver front end for property C09 ("is dominated" for rectangles and ellipsoids).
 
 Slack arguments are the flattened slack array (`np.array(slackness).ravel()`): one entry for a
@@ -11,6 +12,9 @@ scalar.  Answers `1` / `0` for booleans, `ValueError` where the model's guard re
 * `recttol <W> <l1> <u1> <l2> <u2> <s> <t>`     → guard, then `Rect.isDominatedTol … t`
 * `sqrtineq <p> <b> <c> <d>`                    → `Ellipsoid.sqrtIneq p b c d`
 * `ell <W> <c1> <S1> <a1> <c2> <S2> <a2> <s>`   → `Ellipsoid.isDominatedChecked`
+* `intersect <l> <u> <L> <U>`                    → `lower;upper` of `Region.Rect.intersect` (the C14 model of
+  `RectangularConfidenceRegion.intersect`: componentwise max/min when the boxes overlap, else the new box);
+  used to track the bounds a region SHOULD display in the shared-array history stream
 * `elltol <W> <c1> <S1> <a1> <c2> <S2> <a2> <s> <t>` → guard, then `Ellipsoid.isDominatedTol … t`
 -/
 namespace VOPy.Drv.C09
@@ -36,6 +40,12 @@ def handle (args : List String) : String :=
     | some W, some l1, some u1, some l2, some u2, some s, some t =>
       fmtOB ((Rect.expandSlack l1.length s).map fun s => Rect.isDominatedTol W l1 u1 l2 u2 s t)
     | _, _, _, _, _, _, _ => bad
+  | ["intersect", l, u, l', u'] =>
+    match parseVec l, parseVec u, parseVec l', parseVec u' with
+    | some l, some u, some L, some U =>
+      let r := Region.Rect.intersect { lower := l, upper := u, iter := true } L U
+      fmtMat [r.lower, r.upper]
+    | _, _, _, _ => bad
   | ["sqrtineq", p, b, c, d] =>
     match parseRat p, parseRat b, parseRat c, parseRat d with
     | some p, some b, some c, some d => fmtBool (Ellipsoid.sqrtIneq p b c d)
